@@ -472,6 +472,27 @@ func (q *Query) SMT(produceModels bool) string {
 		defIdx[d.Name] = i
 	}
 	used := make([]bool, len(q.Defs))
+	// model-extraction aliases: a wanted def all of whose symbols are already needed is included
+	if produceModels {
+		for _, g := range q.GetVals {
+			if i, ok := defIdx[g]; ok {
+				if _, already := need[g]; already {
+					continue
+				}
+				ds := map[string]Sort{}
+				CollectSyms(q.Defs[i].T, ds)
+				all := true
+				for n := range ds {
+					if _, ok := need[n]; !ok {
+						all = false
+					}
+				}
+				if all {
+					need[g] = q.Defs[i].S
+				}
+			}
+		}
+	}
 	for i := len(q.Defs) - 1; i >= 0; i-- {
 		d := q.Defs[i]
 		if _, ok := need[d.Name]; ok {
